@@ -64,10 +64,16 @@ package state
 //@ ghostvar okUpdates int
 //@ ghostvar hardSeen bool
 //@ ghostvar lastGetPhase resource.Phase
+//@ ghostvar latestRes resource.Resource
 //@
 //@ iface CoreState.Get
-//@   modifies lastGetPhase
+//@   modifies lastGetPhase, latestRes
 //@   ensures [get-result] result1 == nil ==> result0 != nil && mdOf(result0) != nil && lastGetPhase == mdOf(result0).phase
+//@   ensures [latest-read] latestRes == result0
+//@ ghostvar createRefusals int
+//@ iface CoreState.Create
+//@   modifies createRefusals
+//@   ensures [refusals] createRefusals == old(createRefusals) + ite(result != nil, 1, 0)
 //@ iface CoreState.Update
 //@   modifies okUpdates, hardSeen
 //@   ensures [counts] okUpdates == old(okUpdates) + ite(result == nil, 1, 0)
@@ -82,6 +88,9 @@ package state
 //@   props C04
 //@   requires [wrapped] state.CoreState != nil && resourcePointer != nil && f != nil
 //@   requires [opts-nonnil] forall i int :: 0 <= i && i < len(opts) ==> opts[i] != nil
+//@   modifies okUpdates, hardSeen, lastGetPhase, latestRes
+//@   ghost latestRes = result0
+//@   ensures [latest-written] latestRes == result0
 //@   ensures [error-means-no-write] result1 != nil ==> okUpdates == old(okUpdates)
 //@   ensures [at-most-one-write] okUpdates <= old(okUpdates) + 1
 //@   ensures [hard-conflict-never-retried] hardSeen && !old(hardSeen) ==> result1 != nil
@@ -90,3 +99,28 @@ package state
 //@   ensures [result-nonnil] result1 == nil ==> result0 != nil
 //@   loop #2
 //@     invariant [no-write-yet] okUpdates == old(okUpdates) && (hardSeen ==> old(hardSeen)) && state.CoreState != nil && f != nil && resourcePointer != nil
+//@
+// C04: Teardown computes its readiness answer from the latest value it has seen: the one returned by
+// the conflict-retrying update when it had to mark the resource, the one it read otherwise.
+//@ func (coreWrapper).Teardown
+//@   props C04
+//@   requires [wrapped] state.CoreState != nil && resourcePointer != nil
+//@   requires [opts-nonnil] forall i int :: 0 <= i && i < len(opts) ==> opts[i] != nil
+// (call names are matched by substring and counted by position: Metadata(), (Metadata).Phase,
+// Metadata() of the update call, then the Metadata() of the return statement)
+//@   at Metadata #4
+//@     assert [readiness-from-latest-value] res == latestRes
+//@ func (coreWrapper).Teardown$1
+//@   props C04
+//@   requires r != nil
+//@
+// C04: create-or-update. A refused Create ends the call with that error: the mutator has already been
+// applied to the caller's object, so starting over would apply it twice.
+//@ func (coreWrapper).ModifyWithResult
+//@   props C04
+//@   requires [wrapped] state.CoreState != nil && emptyResource != nil && updateFunc != nil
+//@   requires [opts-nonnil] forall i int :: 0 <= i && i < len(options) ==> options[i] != nil
+//@   modifies createRefusals, okUpdates, hardSeen, lastGetPhase, latestRes
+//@   ensures [refusals-monotone] createRefusals >= old(createRefusals)
+//@   ensures [refused-create-is-reported] createRefusals > old(createRefusals) ==> result1 != nil
+//@   ensures [result-nonnil] result1 == nil ==> result0 != nil
